@@ -1,11 +1,14 @@
 //! h2tmc – bounded exhaustive exploration of html2text's public API against reference
 //! models, invariants and relations.  See /verif/DESIGN.md.
+mod configs;
 mod doc;
 mod dom;
 mod engine;
 mod grid;
+mod mutate;
 mod props;
 mod run;
+mod universe;
 mod util;
 
 use engine::Tier;
